@@ -166,6 +166,9 @@ func main() {
 				r.cur = nil
 			}
 		}
+		if os.Getenv("VERIF_DEBUG") != "" {
+			fmt.Fprintln(os.Stderr, "largest interprocedural walk:", ipMaxSeen, "states")
+		}
 		code := 0
 		var caught []string
 		for _, id := range ids {
